@@ -169,6 +169,26 @@ def lookup_loops(F):
     return out
 
 
+def lookups_are_stateless(F, S):
+    """R-WRITESET: what a ResourceManager answers depends on the query and on the directory / archives only: apart from
+    the constructor no operation writes a data member of the manager (no caches whose content depends on earlier queries)."""
+    out = []
+    n = 0
+    for fn in sorted(F.functions.values(), key=lambda f: f.key):
+        if fn.cls != RM or not fn.cfg or fn.d.get("implicit") or fn.d.get("ctor") or fn.name.startswith("~"):
+            continue
+        n += 1
+        w = sorted(it for it in S.writes(fn) if it[0] in ("this", "this@", "unknown"))
+        inst = "%s#stateless" % fn.key
+        req = "a lookup writes no data member of the manager: its answer cannot depend on earlier queries"
+        if not w:
+            out.append(ok("R-WRITESET", inst, fn.loc(fn.body), fn.qn, req, "no member written", nontrivial=False))
+        else:
+            out.append(bad("R-WRITESET", inst, fn.loc(fn.body), fn.qn, req,
+                           "writes %s: a later query can be answered from what an earlier one (with other arguments) left behind" % ", ".join(str(x[1]) if len(x) > 1 else x[0] for x in w)))
+    return out, n
+
+
 def name_forms(F):
     out = []
     for name, np_ in (("ExtractFile", 2), ("OpenStream", 1)):
@@ -418,6 +438,9 @@ def check(F, run, tier):
     run.add(c19.convert_to_upper(F))
     run.add(c19.extension_matches(F))
     run.add(resource_stream(F, S))
+    o_, n_ = lookups_are_stateless(F, S)
+    run.add(o_)
+    run.floor("manager-operations", n_, 8)
     run.add(ctor_order(F))
     run.add(type_listing(F, S))
     run.add(containing_archive(F, S))
